@@ -60,6 +60,10 @@ RULE += (
     'ap backends (pmap: one batch size and one feature set, optionally next to a client with '
     'twice as many batches); client batches as one-shot iterators; mapping-valued predictions'
     ' read through pred_key; a check of its own for a real example with an infinite loss.')
+RULE += (
+    ' '
+    'Also: masks stored as 0/1 integers; a peek at a padded_batch view before it is evaluated'
+    '.')
 ASSUMPTIONS = [
     'scores are finite dyadic rationals with |score| <= 1024 (cross entropy is '
     'NaN by construction for infinite logits); labels lie in [0, num_classes), '
